@@ -168,6 +168,33 @@ example : buildCall [⟨"a", .pk, false⟩, ⟨"k", .ko, true⟩, ⟨"kwargs", .
     { args := [(.name "a", .v 1), (.name "z", .v 3), (.name "k", .v 2)] }
     = .ok { slots := [("a", .v 1), ("k", .v 2)], var := [], kw := [("z", .v 3)] } := by decide
 
+/-- **Each positional-mode parameter receives its own value** (the two halves joined): whenever
+    `build` forms the call and CPython binds it, for every position `j` inside the passed front of
+    the positional list, the `j`-th positional-mode parameter of the signature receives exactly what
+    slot `j` of the configuration prescribes (`expectedSlots`: its own stored value, else its own
+    default) — never the value of a neighbour. -/
+theorem C01_each_positional_parameter_receives_its_own (s : Sig) (wf : ViewWF s)
+    (hs : (s.positionalParams.map (·.name)).Nodup) (c : Cfg) (b : Binding) (h : buildCall s c = .ok b) :
+    ∃ oa front, c.orderedArguments s {} = .ok oa ∧
+      b.var = (front ++ varArgs s oa).drop s.positionalParams.length ∧
+      ∀ j p, j < front.length → s.positionalParams[j]? = some p →
+        ∃ v, (expectedSlots false (varPresent s oa) oa s 0)[j]? = some (some v) ∧ (p.name, v) ∈ b.slots := by
+  obtain ⟨oa, pos, kw, hoa, hta, hvar, _, hslots⟩ := C01_callable_receives_positionals s hs c b h
+  obtain ⟨front, hp, hexp⟩ := C01_never_misbinds s oa wf pos kw hta
+  refine ⟨oa, front, hoa, by rw [hvar, hp], ?_⟩
+  intro j p hj hpj
+  refine ⟨front[j], hexp j hj, ?_⟩
+  apply hslots
+  have hjp : j < s.positionalParams.length := (List.getElem?_eq_some_iff.mp hpj).1
+  have hjpos : j < pos.length := by rw [hp]; simp; omega
+  have hpe : s.positionalParams[j] = p := (List.getElem?_eq_some_iff.mp hpj).2
+  have hve : pos[j] = front[j] := by
+    simp only [hp]
+    exact List.getElem_append_left hj
+  rw [List.mem_iff_getElem]
+  refine ⟨j, by simp; omega, ?_⟩
+  simp [List.getElem_zip, hpe, hve]
+
 /-! ### The keyword part -/
 
 /-- **Nothing is invented or renamed**: every keyword argument `build` passes is a configured
